@@ -59,6 +59,7 @@ func main() {
 	c.Family("chunk", req, "chunk_case_ok", 40)
 	c.Family("node", req, "node_case_ok", 300)
 	c.Family("dec", req, "dec_case_ok", 300)
+	c.Family("validate", req, "validate_case_ok", 100)
 	setup()
 
 	if c.Replay != "" {
@@ -115,4 +116,5 @@ func main() {
 	runMalformed(c)
 	runJSONMalformed(c)
 	runDeep(c)
+	runEntryPoints(c)
 }
